@@ -149,7 +149,7 @@ def shapes(tier, seed):
     # 5. fragmented reads
     for impl in impls:
         for lens in ([[2, 1], [0, 3]] if q else [[2, 1], [0, 3], [1, 1, 1], [4]]):
-            for F in ((1,) if q else (1, 2)):
+            for F in ((1, 2) if lens == [2, 1] or not q else (1,)):
                 for api in ('shell', 'streaming_shell'):
                     out.append({'h': 'service', 'impl': impl, 'api': api, 'decode': False, 'lens': lens, 'frag': F})
     # 7. two shell commands running concurrently: each returns exactly what the device wrote on ITS stream (a timeout caused by the
